@@ -25,13 +25,14 @@ ENCODED = ["twisted.application._client_service:makeMachine", "twisted.applicati
            "twisted.internet.task:Clock.advance", "twisted.internet.task:Clock.callLater"]
 BOUNDS = {"quick": {"plain": 5, "prep": 5, "k": 2}, "thorough": {"plain": 7, "prep": 6, "k": 3}}
 B = {}
-BOUNDS_TEXT = ("every history of <= plain events (no prepareConnection hook) and of <= prep events (hook returning a "
+BOUNDS_TEXT = ("every history of <= plain events (no prepareConnection hook; the application protocol's own connectionLost() symbolically returns or raises) and of <= prep events (hook returning a "
                "Deferred the harness fires or fails later; with a hook returning at once: one event less) over "
                "{startService, stopService, whenConnected(None), whenConnected(k) with k symbolic in 0..k (0 and 1 both mean: fail at the next failed attempt), attempt "
                "succeeds, attempt fails, connection drops, prepareConnection Deferred succeeds / fails, advance the "
                "clock to the retry / by half the remaining delay}; retry policy 1, 2, 4, ... seconds for the 1st, "
                "2nd, 3rd consecutive failure (concrete floats)")
-OUTSIDE = ["calling stopService / whenConnected re-entrantly from a whenConnected callback (automat refuses a "
+OUTSIDE = ["an application protocol whose connectionLost() raises is part of `plain` only (symbolic flag), not of `prep`",
+           "calling stopService / whenConnected re-entrantly from a whenConnected callback (automat refuses a "
            "re-entrant input that returns a value); protocol factories returning None; retry policies with symbolic "
            "or non-positive delays; the default jittered backoffPolicy; real endpoints/reactors",
            "attempt Deferreds whose canceller fires them itself; prepareConnection Deferreds with their own canceller",
